@@ -178,11 +178,15 @@ def builtin_cases(draw, tier):
     scale = draw(st.one_of(st.sampled_from([0.3, 1.0, 0.0, 0.05, 2.0]), st.floats(0.0, 3.0)))
     unit = draw(st.sampled_from([1.0, 1.0, 0.1, 0.01, 10.0]))  # Gaussian costs are negative for small units
     history = draw(st.sampled_from(K.HISTORIES))
+    # whole-numbered readings of the size of event / byte counts (2e7..5e8), handed over as an int64 array
+    counts = cost in ("L2Cost", "L1Cost") and exact and draw(st.integers(0, 3)) == 0
     X, meta = draw(D.structured_matrix(n, p, exact=exact, boundary_positions=(msl, n - msl),
                                        max_spikes=2, max_bumps=2))  # bulk data last (see strategies/data.py)
     if unit != 1.0:
         X = [[v * unit for v in row] for row in X]
-    return {"cost": cost, "msl": msl, "X": X, "penalty_scale": scale, "history": history}
+    if counts:
+        X = [[float(round((v / unit + 14) * 2e7)) for v in row] for row in X]
+    return {"cost": cost, "msl": msl, "X": X, "penalty_scale": scale * (4e14 if counts else 1.0), "history": history, "counts_int64": counts}
 
 
 def check_builtin(case):
@@ -218,8 +222,9 @@ def check_builtin(case):
             # predict on the caller's buffer while it held other data (see common.py)
             if history == "scorer_prefit_wide" and not K.prefit_scorer_wide(det, X):
                 history = None
-            det.fit(X)
-            Xp = K.used_buffer(det, X, history.endswith("frame")) if history and history.startswith("used_buffer") else X
+            Xd = X.astype(np.int64) if case.get("counts_int64") else X  # the detector gets integers, the reference floats
+            det.fit(Xd)
+            Xp = K.used_buffer(det, Xd, history.endswith("frame")) if history and history.startswith("used_buffer") else Xd
             cpts = det.predict(Xp)["ilocs"].tolist()
             scores = det.transform_scores(Xp).to_numpy()
             penalty = float(det.penalty_)
@@ -233,7 +238,8 @@ def check_builtin(case):
     def costfn(s, e):
         return float(T[s, e])
 
-    classes = [f"cost={case['cost']}", f"p={p}"] + ([f"history={history}"] if history else [])
+    classes = [f"cost={case['cost']}", f"p={p}"] + ([f"history={history}"] if history else []) + \
+        (["int64_counts"] if case.get("counts_int64") else [])
     scale = float(np.nanmax(np.abs(T))) + penalty
     tol = 1e-9 * (1.0 + scale)
     # precondition of the property: splitting never increases the cost (on this table)
